@@ -40,7 +40,9 @@ def run(chk, st, tier):
     # 2. a different process history: the same cases in another order, after other work has filled the pools
     order = list(range(len(ws)))
     rng.shuffle(order)
-    plines = Fm.shape_lines(shapes) + [ws[i].line("x%d" % i) for i in order[:20]] + [ws[i].line("w%d" % i) for i in order] + \
+    # ... and after other writers whose sink failed at some write (error paths touch the shared pools too)
+    failing = [ws[i].line("y%d_%d" % (i, k), failat=k) for i in order[:14] for k in (1, 2, 3, 4, 6, 9)]
+    plines = Fm.shape_lines(shapes) + [ws[i].line("x%d" % i) for i in order[:20]] + failing + [ws[i].line("w%d" % i) for i in order] + \
         ["r%d read %s %s plain" % (i, ws[i].shape.name, C.hexs(files[i])) for i in order if i in files]
     d = os.path.join(C.WORK, "cases")
     ppath = os.path.join(d, "C13-polluted.txt")
@@ -51,7 +53,7 @@ def run(chk, st, tier):
     # 3. all instances concurrently on goroutines, three times over
     cpath = os.path.join(d, "C13-conc.txt")
     with open(cpath, "w") as f:
-        f.write("\n".join(lines + rlines) + "\n")
+        f.write("\n".join(lines + rlines + failing) + "\n")
     rc, out, err = C.run([runner, "-parallel", "16", "3", cpath], timeout=1800)
     conc = dict(l.split(" ", 1) for l in out.splitlines() if " " in l)
     if rc != 0:
@@ -90,7 +92,7 @@ def run(chk, st, tier):
     chk.coverage["race_detector"] = race_note
     chk.sample({"workload": ws[0].describe(), "solo": (base.get("w0") or "")[:80], "concurrent": (conc.get("w0") or "")[:80]})
     chk.coverage["rule"] = ("portfolio workloads (writer instances) and reads of their files (reader instances): each run solo in order (and compared with the model, which has no shared state), then in a process with a different "
-                            "earlier history (20 other writer runs first, shuffled order: other buffer-pool contents), then all concurrently on 16 goroutines three times over, then again under the Go race detector. "
+                            "earlier history (20 other writer runs and 84 writer runs whose sink fails at its 1st..9th write first, shuffled order: other buffer-pool contents, error paths taken), then all concurrently (together with the failing-sink writers) on 16 goroutines three times over, then again under the Go race detector. "
                             "Every result must be byte-identical to the solo result. distinct = distinct instances.")
     chk.coverage["explanation"] = ("C13_pool_indep / C13_interleave_indep (coq/props/C13.v): in the model the pooled buffers' stale contents cannot influence any output and any interleaving of API calls of independent instances gives each "
                                    "instance its solo outputs. Data-race freedom and intra-call preemption are Go memory-model behaviour that an executable Gallina model cannot exhibit: they are explored by the runs above, not proved.")
